@@ -3,7 +3,7 @@ use std::cell::{Cell, RefCell};
 use std::sync::atomic::Ordering;
 
 pub const MAXT: usize = 4;
-pub const NSUM: usize = 8;
+pub const NSUM: usize = 10;
 pub type VC = [u32; MAXT];
 pub type Summary = [u64; NSUM];
 pub type H = u128;
